@@ -62,10 +62,8 @@ class UpdateCoreTdvp(_Helper):
         yield 'working-buffers-owned', z3.And(lst_get(sol.cores, i).buf >= S.state.ctx.mark0)
         if S.inst['direction'] == 'forward':
             yield 'next-core', z3.Implies(i < d - 1, sol_core_ok(sol, i + 1))
-            yield 'rank-admissible', z3.Implies(i < d - 1, lst_get(sol.ranks, i) <= lst_get(sol.row_dims, i) * lst_get(sol.ranks, i + 1))
         else:
             yield 'previous-core', z3.Implies(i > 0, sol_core_ok(sol, i - 1))
-            yield 'rank-admissible', z3.Implies(i > 0, lst_get(sol.ranks, i) <= lst_get(sol.row_dims, i) * lst_get(sol.ranks, i + 1))
 
     def ensures(self, S, res):
         sol, sol0, i = S.a['solution'], S.o['solution'], zi(S.o['i'])
@@ -77,11 +75,11 @@ class UpdateCoreTdvp(_Helper):
             yield 'next-core', z3.Implies(i < d - 1, z3.And(sol_core_ok(sol, i + 1), lst_get(sol.cores, i + 1).buf >= S.mark0))
             yield 'ranks', z3.And(FA(0, d + 1, lambda j: z3.Implies(j != i + 1, lst_get(sol.ranks, j) == lst_get(sol0.ranks, j))),
                                   lst_get(sol.ranks, i + 1) <= lst_get(sol0.ranks, i + 1), lst_get(sol.ranks, i + 1) >= 1)
-            yield 'admissible-kept', z3.Implies(i < d - 1, lst_get(sol0.ranks, i) <= lst_get(sol0.row_dims, i) * lst_get(sol.ranks, i + 1))
             touched = lambda j: z3.Or(j == i, z3.And(j == i + 1, i < d - 1))  # noqa
         else:
             yield 'previous-core', z3.Implies(i > 0, z3.And(sol_core_ok(sol, i - 1), lst_get(sol.cores, i - 1).buf >= S.mark0))
-            yield 'ranks', FA(0, d + 1, lambda j: lst_get(sol.ranks, j) == lst_get(sol0.ranks, j))
+            yield 'ranks', z3.And(FA(0, d + 1, lambda j: z3.Implies(z3.Or(j != i, i == 0), lst_get(sol.ranks, j) == lst_get(sol0.ranks, j))),
+                                  lst_get(sol.ranks, i) <= lst_get(sol0.ranks, i), lst_get(sol.ranks, i) >= 1)
             touched = lambda j: z3.Or(j == i, z3.And(j == i - 1, i > 0))  # noqa
         yield 'other-cores-unchanged', FA(0, d, lambda j: z3.Implies(z3.Not(touched(j)), z3.And(
             lst_get(sol.cores, j).buf == lst_get(sol0.cores, j).buf, zi(lst_get(sol.cores, j).ndim) == zi(lst_get(sol0.cores, j).ndim),
@@ -110,6 +108,12 @@ class UpdateCoreTdvp(_Helper):
             sol.cores.items, sol.cores.length = None, d
             sol.cores.fn = lambda j: arr_ite(j == i, a, arr_ite(z3.And(j == i + 1, i < d - 1), b, g(j)))
         else:
+            old_r = sol.ranks.snapshot()
+            old_r.to_fn()
+            nr = fresh('newrank')
+            f = old_r.fn
+            sol.ranks.items, sol.ranks.length = None, d + 1
+            sol.ranks.fn = lambda j: z3.If(z3.And(j == i, i > 0), nr, f(j))
             oc = sol.cores.snapshot()
             oc.to_fn()
             g = oc.fn
@@ -139,9 +143,6 @@ class _TdvpDriver(Contract):
         yield 'dims-match', z3.And(same_ints(x.row_dims, op.col_dims, d), FA(0, d, lambda j: lst_get(x.col_dims, j) == 1))
         yield 'boundary-ranks-1', z3.And(boundary_one(op), boundary_one(x))
         yield 'steps>=0', zi(S.a['number_of_steps']) >= 0
-        # from the only internal call site (tjm_jump_process_tdvp right-orthonormalises first) and from the stale leading
-        # rank used by the backward RQ step: right-admissible ranks
-        yield 'right-admissible-ranks', admissible(x, d)
 
     def ensures(self, S, res):
         x0 = S.o['initial_value']
@@ -152,6 +153,8 @@ class _TdvpDriver(Contract):
             yield 'length==steps+1', zi(res.length) == n + 1
             yield 'head-is-initial-value', lst_get(res, 0) == x0.ref
             yield 'later-states-are-fresh-objects', FA(1, n + 1, lambda j: lst_get(res, j) >= S.mark0)
+            j1, j2 = fresh('j1'), fresh('j2')
+            yield 'states-pairwise-distinct-objects', z3.ForAll([j1, j2], z3.Implies(z3.And(0 <= j1, j1 < j2, j2 <= n), lst_get(res, j1) != lst_get(res, j2)))
             yield 'list-fresh', res.ref >= S.mark0
 
     def canary(self, S, res):
@@ -165,7 +168,6 @@ class _TdvpDriver(Contract):
         yield 'tmp-dims', z3.And(same_ints(tmp.row_dims, x0.row_dims, d), FA(0, d, lambda j: lst_get(tmp.col_dims, j) == 1))
         yield 'ranks', FA(0, d + 1, lambda j: z3.And(lst_get(tmp.ranks, j) >= 1, lst_get(tmp.ranks, j) <= lst_get(x0.ranks, j)))
         yield 'boundary', z3.And(lst_get(tmp.ranks, 0) == 1, lst_get(tmp.ranks, d) == 1)
-        yield 'admissible', admissible(tmp, d)
         yield 'buffers-fresh', cores_fresh(tmp, V.mark0)
         for nm in ('stack_left_op', 'stack_right_op'):
             yield 'len(%s)' % nm, z3.And(zi(V[nm].length) == d, V[nm].ref >= V.mark0)
@@ -191,6 +193,9 @@ class Tdvp1Site(_TdvpDriver):
             it = zi(V['current_iteration'])
             yield 'trajectory', z3.And(zi(sol.length) == it, sol.ref >= V.mark0, lst_get(sol, 0) == x0.ref, it >= 1, it <= zi(V.old('number_of_steps')) + 1,
                                        FA(1, it, lambda j: lst_get(sol, j) >= V.mark0))
+            j1, j2 = fresh('j1'), fresh('j2')
+            yield 'distinct', z3.And(z3.ForAll([j1, j2], z3.Implies(z3.And(0 <= j1, j1 < j2, j2 < it), lst_get(sol, j1) != lst_get(sol, j2))),
+                                     FA(0, it, lambda j: z3.And(lst_get(sol, j) < V.state.mark, lst_get(sol, j) != V['tmp'].ref)), V['tmp'].ref < V.state.mark)
 
         def inv_init(V, i, k):
             tmp, op = V['tmp'], V.old('operator')
@@ -224,3 +229,193 @@ class Tdvp1Site(_TdvpDriver):
 
     loop_ordinals = {0: 'i in range(operator.order - 1, -1, -1)#0', 1: 'while current_iteration <= number_of_steps', 2: 'i in range(operator.order)',
                      3: 'i in range(operator.order - 1, -1, -1)#3'}
+
+
+@register
+class UpdateCoreTdvp2Site(_Helper):
+    name, func, file = 'fn:__update_core_tdvp2site', '__update_core_tdvp2site', FILE
+    props = ('C11', 'C06')
+
+    def instances(self):
+        return [{'direction': 'forward'}, {'direction': 'backward'}]
+
+    def call_inst(self, A):
+        if not isinstance(A['direction'], str):
+            raise Unsupported('symbolic direction')
+        return {'direction': A['direction']}
+
+    def modifies(self, S):
+        sol = S.o['solution']
+        return [sol.cores.ref, sol.ranks.ref], []
+
+    def mutated(self, A):
+        return [A['solution'].cores, A['solution'].ranks]
+
+    def setup(self, ex, state, inst):
+        op, sol, i = self.base(ex, state)
+        d = zi(op.order)
+        state.assume(i < d - 1)
+        N = lst_get(sol.ranks, i) * lst_get(sol.row_dims, i) * lst_get(sol.row_dims, i + 1) * lst_get(sol.ranks, i + 2)
+        mo = SArr([N, N], fresh('mocx', 'bool'), fresh('mobuf'), True)
+        state.assume(mo.buf >= ex.ctx.mark0)
+        state.assume(FA(0, d, lambda j: lst_get(sol.cores, j).buf >= ex.ctx.mark0))
+        cap = SMaxRank('max_rank')
+        state.assume(z3.Or(cap.is_inf, cap.val >= 1))
+        return {'i': i, 'micro_op': mo, 'solution': sol, 'step_size': SNum('step_size'), 'threshold': SNum('threshold', nonneg=z3.BoolVal(True)),
+                'max_rank': cap, 'direction': inst['direction']}
+
+    def requires(self, S):
+        sol, i, mo = S.a['solution'], zi(S.a['i']), S.a['micro_op']
+        d = zi(sol.order)
+        N = lst_get(sol.ranks, i) * lst_get(sol.row_dims, i) * lst_get(sol.row_dims, i + 1) * lst_get(sol.ranks, i + 2)
+        yield 'i-in-range', z3.And(i >= 0, i < d - 1)
+        yield 'micro-matrix-shape', z3.And(mo.shape[0] == N, mo.shape[1] == N)
+        yield 'cores-i,i+1', z3.And(sol_core_ok(sol, i), sol_core_ok(sol, i + 1))
+
+    def ensures(self, S, res):
+        sol, sol0, i = S.a['solution'], S.o['solution'], zi(S.o['i'])
+        d = zi(sol0.order)
+        yield 'lists-kept', z3.And(sol.cores.ref == sol0.cores.ref, sol.ranks.ref == sol0.ranks.ref, zi(sol.cores.length) == d, zi(sol.ranks.length) == d + 1)
+        yield 'cores-i,i+1', z3.And(sol_core_ok(sol, i), sol_core_ok(sol, i + 1), lst_get(sol.cores, i).buf >= S.mark0, lst_get(sol.cores, i + 1).buf >= S.mark0)
+        yield 'ranks', z3.And(FA(0, d + 1, lambda j: z3.Implies(j != i + 1, lst_get(sol.ranks, j) == lst_get(sol0.ranks, j))),
+                              lst_get(sol.ranks, i + 1) >= 1, cap_ok(lst_get(sol.ranks, i + 1), S.o['max_rank']))
+        yield 'other-cores-unchanged', FA(0, d, lambda j: z3.Implies(z3.Not(z3.Or(j == i, j == i + 1)), z3.And(
+            lst_get(sol.cores, j).buf == lst_get(sol0.cores, j).buf, zi(lst_get(sol.cores, j).ndim) == zi(lst_get(sol0.cores, j).ndim),
+            *[a == b for a, b in zip(lst_get(sol.cores, j).shape, lst_get(sol0.cores, j).shape)])))
+
+    def canary(self, S, res):
+        return lst_get(S.a['solution'].ranks, zi(S.o['i'])) == lst_get(S.o['solution'].ranks, zi(S.o['i'])) + 1
+
+    def effect(self, ex, state, A, inst, line):
+        sol, i = A['solution'], zi(A['i'])
+        mk = lambda: SArr([fresh('c%d' % q) for q in range(4)], fresh('ccx', 'bool'), state.alloc(), True, ndim=fresh('cnd'))  # noqa
+        sol.ranks.set(i + 1, fresh('newrank'))
+        sol.cores.set(i, mk())
+        sol.cores.set(i + 1, mk())
+        return NONE
+
+
+class _Tdvp2Common(_TdvpDriver):
+    def defaults(self):
+        return {'threshold': SNum('thr', nonzero=z3.BoolVal(True), nonneg=z3.BoolVal(True)), 'max_rank': 50, 'normalize': 0}
+
+    def setup(self, ex, state, inst):
+        p = self.base_setup(ex, state)
+        cap = SMaxRank('max_rank')
+        state.assume(z3.Or(cap.is_inf, cap.val >= 1))
+        p.update({'threshold': SNum('threshold', nonneg=z3.BoolVal(True)), 'max_rank': cap, 'normalize': 0})
+        return p
+
+    def common(self, V):
+        tmp, op, x0 = V['tmp'], V.old('operator'), V.old('initial_value')
+        d = zi(op.order)
+        yield 'tmp-identity', z3.And(meta_fresh(tmp, V.mark0), lists_distinct(tmp), zi(tmp.order) == d)
+        yield 'wf(tmp)', wf(tmp)
+        yield 'tmp-dims', z3.And(same_ints(tmp.row_dims, x0.row_dims, d), FA(0, d, lambda j: lst_get(tmp.col_dims, j) == 1))
+        yield 'ranks', FA(0, d + 1, lambda j: lst_get(tmp.ranks, j) >= 1)
+        yield 'boundary', z3.And(lst_get(tmp.ranks, 0) == 1, lst_get(tmp.ranks, d) == 1)
+        yield 'buffers-fresh', cores_fresh(tmp, V.mark0)
+        for nm in ('stack_left_op', 'stack_right_op'):
+            yield 'len(%s)' % nm, z3.And(zi(V[nm].length) == d, V[nm].ref >= V.mark0)
+
+    @staticmethod
+    def sol_list(V):
+        sol, x0 = V['solution'], V.old('initial_value')
+        it = zi(V['current_iteration'])
+        yield 'trajectory', z3.And(zi(sol.length) == it, sol.ref >= V.mark0, lst_get(sol, 0) == x0.ref, it >= 1, it <= zi(V.old('number_of_steps')) + 1,
+                                   FA(1, it, lambda j: lst_get(sol, j) >= V.mark0))
+        j1, j2 = fresh('j1'), fresh('j2')
+        yield 'distinct', z3.And(z3.ForAll([j1, j2], z3.Implies(z3.And(0 <= j1, j1 < j2, j2 < it), lst_get(sol, j1) != lst_get(sol, j2))),
+                                 FA(0, it, lambda j: z3.And(lst_get(sol, j) < V.state.mark, lst_get(sol, j) != V['tmp'].ref)), V['tmp'].ref < V.state.mark)
+
+
+@register
+class Tdvp2Site(_Tdvp2Common):
+    name, func = 'fn:tdvp2site', 'tdvp2site'
+
+    def requires(self, S):
+        yield from _TdvpDriver.requires(self, S)
+        yield 'order>=2', zi(S.a['operator'].order) >= 2
+
+    def invariant(self, key, inst):
+        me = self
+
+        def inv_init(V, i, k):
+            tmp, op = V['tmp'], V.old('operator')
+            d = zi(op.order)
+            yield from me.common(V)
+            yield 'right-stacks', FA(0, d, lambda j: z3.Implies(j > i, Rop(V['stack_right_op'], op, tmp, j)))
+
+        def inv_while(V, i, k):
+            tmp, op = V['tmp'], V.old('operator')
+            d = zi(op.order)
+            yield from me.common(V)
+            yield from me.sol_list(V)
+            yield 'right-stacks', FA(1, d, lambda j: Rop(V['stack_right_op'], op, tmp, j))
+
+        def inv_fwd(V, i, k):
+            tmp, op = V['tmp'], V.old('operator')
+            d = zi(op.order)
+            yield from me.common(V)
+            yield 'left-stacks', FA(0, d, lambda j: z3.Implies(j < i, Lop(V['stack_left_op'], op, tmp, j)))
+            yield 'right-stacks', FA(1, d, lambda j: z3.Implies(j > i, Rop(V['stack_right_op'], op, tmp, j)))
+
+        def inv_bwd(V, i, k):
+            tmp, op = V['tmp'], V.old('operator')
+            d = zi(op.order)
+            yield from me.common(V)
+            yield 'left-stacks', FA(0, d, lambda j: z3.Implies(j <= i, Lop(V['stack_left_op'], op, tmp, j)))
+            yield 'right-stacks', FA(1, d, lambda j: z3.Implies(j > i + 1, Rop(V['stack_right_op'], op, tmp, j)))
+        table = {'i in range(operator.order - 1, 0, -1)': inv_init, 'while current_iteration <= number_of_steps': inv_while,
+                 'i in range(operator.order - 1)': inv_fwd, 'i in range(operator.order - 2, -1, -1)': inv_bwd}
+        return table.get(key)
+
+    loop_ordinals = {0: 'i in range(operator.order - 1, 0, -1)', 1: 'while current_iteration <= number_of_steps', 2: 'i in range(operator.order - 1)',
+                     3: 'i in range(operator.order - 2, -1, -1)'}
+
+
+@register
+class TdvpHybrid(_Tdvp2Common):
+    name, func = 'fn:tdvp', 'tdvp'
+
+    def invariant(self, key, inst):
+        me = self
+
+        def inv_init(V, i, k):
+            tmp, op = V['tmp'], V.old('operator')
+            d = zi(op.order)
+            yield from me.common(V)
+            yield 'right-stacks', FA(0, d, lambda j: z3.Implies(j > i, Rop(V['stack_right_op'], op, tmp, j)))
+
+        def inv_steps(V, i, k):
+            tmp, op = V['tmp'], V.old('operator')
+            d = zi(op.order)
+            yield from me.common(V)
+            yield from me.sol_list(V)
+            yield 'right-stacks', FA(0, d, lambda j: Rop(V['stack_right_op'], op, tmp, j))
+
+        def inv_fwd(V, _i, k):
+            tmp, op = V['tmp'], V.old('operator')
+            d = zi(op.order)
+            i = zi(V['i'])
+            yield from me.common(V)
+            yield from me.sol_list(V)
+            yield 'i-range', z3.And(i >= 0, i <= d - 1)
+            yield 'left-stacks', FA(0, d, lambda j: z3.Implies(j < i, Lop(V['stack_left_op'], op, tmp, j)))
+            yield 'right-stacks', FA(0, d, lambda j: z3.Implies(j >= i, Rop(V['stack_right_op'], op, tmp, j)))
+
+        def inv_bwd(V, _i, k):
+            tmp, op = V['tmp'], V.old('operator')
+            d = zi(op.order)
+            i = zi(V['i'])
+            yield from me.common(V)
+            yield from me.sol_list(V)
+            yield 'i-range', z3.And(i >= 0, i <= d - 1)
+            yield 'left-stacks', FA(0, d, lambda j: z3.Implies(j <= i, Lop(V['stack_left_op'], op, tmp, j)))
+            yield 'right-stacks', FA(0, d, lambda j: z3.Implies(j > i, Rop(V['stack_right_op'], op, tmp, j)))
+        table = {'i in range(operator.order - 1, -1, -1)': inv_init, 'while current_iteration <= number_of_steps': inv_steps,
+                 'while i < operator.order - 1': inv_fwd, 'while i > 0': inv_bwd}
+        return table.get(key)
+
+    loop_ordinals = {0: 'i in range(operator.order - 1, -1, -1)', 1: 'while current_iteration <= number_of_steps', 2: 'while i < operator.order - 1',
+                     3: 'while i > 0'}
